@@ -48,6 +48,14 @@ REQUIRE = {
     "oracle_b_esc_prefixed_meta_named_judged": 300,
     "oracle_a_event_names_checked": 100000,
     "schedules_mixed_entry": 2000,
+    "rehook:with-bytes-pending": 900,
+    "rehook:nothing-pending": 100,
+    "rehook_via:direct": 400,
+    "rehook_via:signal": 400,
+    "oracle_c_equal_across_rehook_with_bytes_pending": 900,
+    "throttle_wait:chunk": 400,
+    "throttle_wait:chunk+resize": 400,
+    "throttle_wait:resize": 100,
     "container:list": 1500,
     "transition:list-left-pending->read": 400,
     "transition:read-left-pending->list": 400,
@@ -108,6 +116,13 @@ ASSUMES = [
     "'esc' event (tests/test_escapes.py test_esc_meta_1, test_bug_104): ESC+S -> ['meta '+N] if 'meta ' not in N else ['esc', N]",
     "documented event-name grammar: modifiers shift/meta/ctrl each at most once, then a base key of the name table / tab, "
     "enter, backspace, esc / one character (two in a wide encoding) / '<n>' pass-through; every event of every delivery is checked",
+    "blocking-path schedules: one event (chunk / SIGWINCH / chunk+SIGWINCH / silence) per wait made by get_input; resize_wait "
+    "is shorter than complete_wait, so a throttle wait that finds silence does not consume the scheduled expiry; once the "
+    "expiry is delivered the terminal stays silent until nothing is pending; get_input returning with bytes pending is a "
+    "violation (nothing would flush them: the next call blocks for max_wait, default for ever)",
+    "re-hook (unhook_event_loop + hook_event_loop, directly or via INPUT_DESCRIPTORS_CHANGED with a MainLoop-like owner) "
+    "must keep the pending tail AND keep a completion timeout running for it; 'window resize' events on the hooked screen "
+    "(chained SIGWINCH handlers of other started screens) are not part of the input stream and are ignored",
     "a SIGWINCH wake-up while bytes are pending is not a timeout: 'window resize' events are removed before comparing with the "
     "event-loop path, and at least one must be reported per case with a wake-up",
     "an SGR report with three decimal fields but a zero coordinate (ESC[<0;0;0M -> x=y=-1) is outside the 1-based protocol; the "
@@ -132,6 +147,7 @@ class NoProgress(Exception):
 class FakeLoop:
     def __init__(self):
         self.pending = {}
+        self.watches = {}
         self.n = 0
         self.bad = []
 
@@ -147,6 +163,15 @@ class FakeLoop:
         self.bad.append(handle)
         return False
 
+    # file watches (used when the screen is really hooked with hook_event_loop)
+    def watch_file(self, fd, callback):
+        self.n += 1
+        self.watches[self.n] = (fd, callback)
+        return self.n
+
+    def remove_watch_file(self, handle):
+        return self.watches.pop(handle, None) is not None
+
 
 # ------------------------------------------------------------------ environment (real urwid side)
 
@@ -160,6 +185,9 @@ class Env:
         from urwid.display import escape, raw
 
         self.urwid = urwid
+        from urwid.display.common import INPUT_DESCRIPTORS_CHANGED
+
+        self.INPUT_DESCRIPTORS_CHANGED = INPUT_DESCRIPTORS_CHANGED
         self.escape = escape
         self.raw = raw
         self.util = util
@@ -190,6 +218,8 @@ class Env:
         escape.process_keyqueue = pkq
         self.model = M.Model(list(escape.input_sequences))
         self.gi = None  # get_input screens
+        self.hscreen = None
+        self.hpipe = None
         self.names_ok = {m: set() for m in MODES}  # event names already validated against the grammar
 
     def close(self):
@@ -198,6 +228,11 @@ class Env:
         self.str_util.set_byte_encoding(self.saved_encoding[2])
         if self.gi is not None:
             self.gi.close()
+        if self.hscreen is not None:
+            self.hscreen.stop()
+        if self.hpipe is not None:
+            self.hpipe[0].close()
+            os.close(self.hpipe[1])
 
     def set_mode(self, mode):
         if mode != self.mode:
@@ -208,6 +243,20 @@ class Env:
     def new_screen(self):
         s = self.raw.Screen(input=object(), output=io.StringIO())
         self.screen = s
+        return s
+
+    def hooked_screen(self):
+        """a started POSIX raw Screen on a pipe, so that hook_event_loop() registers real watches"""
+        s = self.hscreen
+        if s is None or s._partial_codes or s._input_timeout is not None or "_get_input_codes" in s.__dict__:
+            if s is not None:
+                s.stop()
+            if self.hpipe is None:
+                r, w = os.pipe()
+                self.hpipe = (os.fdopen(r, "rb", 0), w)
+            s = self.raw.Screen(input=self.hpipe[0], output=io.StringIO())
+            s.start()
+            self.hscreen = s
         return s
 
     def clean_screen(self):
@@ -263,14 +312,19 @@ def entry_marks(d, prev, ent, how_read):
         d.marks.append(f"transition:{prev[0] or how_read}-left-pending->{ent or how_read}")
 
 
-def deliver(env: Env, mode, data: bytes, cuts=(), fires=(), entries=None) -> Delivery:
+def deliver(env: Env, mode, data: bytes, cuts=(), fires=(), entries=None, rehooks=None, via="direct") -> Delivery:
     """feed `data` cut at `cuts` through parse_input; fire the virtual timer at the cuts listed in `fires`
-    and once more at the end (end of stream = the terminal is silent, the timeout expires)"""
+    and once more at the end (end of stream = the terminal is silent, the timeout expires).
+    rehooks is not None: the screen is started and really hooked (screen.hook_event_loop(loop, cb)); chunks are read
+    by the registered watch callback; after the cuts in `rehooks` the owner re-hooks the screen (unhook + hook, directly
+    or through the INPUT_DESCRIPTORS_CHANGED signal like MainLoop._reset_input_descriptors) before the remainder arrives"""
     env.set_mode(mode)
-    s = env.clean_screen()
+    hooked = rehooks is not None
+    s = env.hooked_screen() if hooked else env.clean_screen()
     loop = FakeLoop()
     d = Delivery()
     env.steps = d.steps
+    rehooked = [False]
 
     def cb(keys, raw):
         d.calls += 1
@@ -282,8 +336,22 @@ def deliver(env: Env, mode, data: bytes, cuts=(), fires=(), entries=None) -> Del
     entries = entries or {}
     prev = None
 
+    def rehook():
+        s.unhook_event_loop(loop)
+        s.hook_event_loop(loop, cb)
+
+    if hooked:
+        s.hook_event_loop(loop, cb)
+        if via == "signal":
+            env.urwid.connect_signal(s, env.INPUT_DESCRIPTORS_CHANGED, rehook)
+
     def invariants(stage):
         pend = list(s._partial_codes)
+        if rehooked[0] and pend and not loop.pending:
+            rehooked[0] = False
+            d.problems.append(("alarm|completion-timer-not-rearmed-after-rehook", f"pending={pend}, no alarm {stage}"))
+            return pend
+        rehooked[0] = False
         if len(loop.pending) > 1:
             d.problems.append(("alarm|more-than-one-pending", f"{len(loop.pending)} alarms pending {stage}"))
         if loop.bad:
@@ -315,7 +383,10 @@ def deliver(env: Env, mode, data: bytes, cuts=(), fires=(), entries=None) -> Del
             if ent is None:
                 # the event-loop read path: get_available_raw_input() prepends the carried-over codes
                 s._get_input_codes = lambda chunk=chunk: list(chunk)
-                s.parse_input(loop, cb, s.get_available_raw_input())
+                if hooked:
+                    next(iter(loop.watches.values()))[1]()  # the watch callback registered by hook_event_loop
+                else:
+                    s.parse_input(loop, cb, s.get_available_raw_input())
             else:
                 # the application read this chunk itself and hands it to parse_input in a container of its choice
                 # (docstring: "a sequence of keycodes ... A bytearray is appropriate"), carrying over what is pending
@@ -326,6 +397,19 @@ def deliver(env: Env, mode, data: bytes, cuts=(), fires=(), entries=None) -> Del
             last = i == len(bounds) - 2
             if pend and not last:
                 d.left_pending += 1
+            if hooked and not last and bounds[i + 1] in rehooks:
+                d.marks.append("rehook:with-bytes-pending" if pend else "rehook:nothing-pending")
+                d.marks.append(f"rehook_via:{via}")
+                if via == "signal":
+                    env.urwid.emit_signal(s, env.INPUT_DESCRIPTORS_CHANGED)
+                else:
+                    rehook()
+                rehooked[0] = True
+                nprob = len(d.problems)
+                invariants(f"after re-hook at {bounds[i + 1]}")
+                if len(d.problems) > nprob and bounds[i + 1] in fires:
+                    d.marks.append("stopped-early")
+                    break  # no timer is running for the pending bytes, so the scheduled expiry cannot be delivered
             if (last or bounds[i + 1] in fires) and loop.pending:
                 h = next(iter(loop.pending))
                 _sec, fn = loop.pending.pop(h)
@@ -343,7 +427,21 @@ def deliver(env: Env, mode, data: bytes, cuts=(), fires=(), entries=None) -> Del
         env.steps = None
         if env.screen is not None:
             env.screen.__dict__.pop("_get_input_codes", None)
-    if d.error is None:
+        if hooked:
+            s.__dict__.pop("_get_input_codes", None)
+            if via == "signal":
+                env.urwid.disconnect_signal(s, env.INPUT_DESCRIPTORS_CHANGED, rehook)
+            try:
+                s.unhook_event_loop(loop)
+            except Exception:  # noqa: BLE001
+                pass
+            if d.error is not None or d.problems:
+                s._partial_codes = []
+                s._input_timeout = None
+    if hooked:
+        # SIGWINCH handlers of started screens chain to each other; a resize is not part of the input stream
+        d.events = [e for e in d.events if e != "window resize"]
+    if d.error is None and "stopped-early" not in d.marks:
         if bytes(d.raw) != data:
             d.problems.append(("partition|raw-incomplete-at-end", f"raw={d.raw} input={list(data)}"))
         # every top-level decode step: consumed >= 1 byte (checked in the wrapper), events are str / tuple
@@ -403,7 +501,7 @@ class GetInputRig:
         os.close(self.w)
 
 
-def deliver_get_input(env: Env, mode, data: bytes, cuts=(), fires=(), real=False, resizes=(), fds=False, entries=None) -> Delivery:
+def deliver_get_input(env: Env, mode, data: bytes, cuts=(), fires=(), real=False, resizes=(), fds=False, entries=None, joint=()) -> Delivery:
     """blocking path.  real: whole data written to the pipe, nothing stubbed.  Otherwise a schedule of events
     (chunk arrives / SIGWINCH wakes the resize pipe / the wait times out) is consumed one event per
     _wait_for_input_ready call made by get_input: fds=False answers the wait from the schedule (virtual),
@@ -419,17 +517,23 @@ def deliver_get_input(env: Env, mode, data: bytes, cuts=(), fires=(), real=False
     s.set_input_timeouts(0, 0, 0) if real else s.set_input_timeouts(0, 7.0, 3.0)
     d = Delivery()
     bounds = [0, *cuts, len(data)]
+    # schedule: at offset p first the SIGWINCHs listed for p (resizes is a multiset of offsets), then the expiry if the
+    # timer fires at p, then the chunk starting at p; a p in `joint` merges one of its SIGWINCHs with that chunk
+    # (bytes and resize arrive during the same wait)
     queue = []
-    if 0 in resizes:
-        queue.append(("resize", 0))
-    for i in range(len(bounds) - 1):
-        queue.append(("chunk", data[bounds[i] : bounds[i + 1]], bounds[i]))
-        if bounds[i + 1] in resizes:
-            queue.append(("resize", bounds[i + 1]))
-        if bounds[i + 1] in fires or i == len(bounds) - 2:
-            queue.append(("expire", bounds[i + 1]))
+    resizes = list(resizes)
+    for i in range(len(bounds)):
+        p = bounds[i]
+        last = i == len(bounds) - 1
+        together = p in joint and p in resizes and not last
+        for _ in range(resizes.count(p) - (1 if together else 0)):
+            queue.append(("resize", p))
+        if i > 0 and (p in fires or last):
+            queue.append(("expire", p))
+        if not last:
+            queue.append(("chunk", data[p : bounds[i + 1]], p, together))
     arrived = []
-    state = {"expired": False, "delivered": 0}
+    state = {"expired": False, "delivered": 0, "last_resize_at": None}
     real_wait = s._wait_for_input_ready
 
     def wait(timeout):
@@ -438,13 +542,24 @@ def deliver_get_input(env: Env, mode, data: bytes, cuts=(), fires=(), real=False
         real_wait0 = lambda _t: real_wait(0)  # noqa: E731
         if state.get("silent"):
             return real_wait0(0) if fds else []
+        if state.get("quiet"):
+            # the terminal has gone silent for longer than every timeout: it stays silent until the pending bytes are out
+            if s._partial_codes:
+                return real_wait0(0) if fds else []
+            state["quiet"] = False
         kind = queue[0][0] if queue else "expire"
         if kind == "expire" and timeout == 3.0:
             # the resize throttle's shorter wait ran out; the completion timeout is still ahead
             return real_wait0(0) if fds else []
+        if timeout == 3.0:
+            d.marks.append("throttle_wait:" + kind)
         if kind == "chunk":
-            c = queue.pop(0)[1]
+            _k, c, _start, together = queue.pop(0)
             state["delivered"] += len(c)
+            if together:
+                state["last_resize_at"] = len(d.events)
+                d.marks.append("throttle_wait:chunk+resize" if timeout == 3.0 else "wait:chunk+resize")
+                s._sigwinch_handler(28, None)
             if fds:
                 os.write(rig.w, c)
                 return real_wait(0)
@@ -454,11 +569,13 @@ def deliver_get_input(env: Env, mode, data: bytes, cuts=(), fires=(), real=False
             queue.pop(0)
             if s._partial_codes:
                 d.resize_while_pending += 1
+            state["last_resize_at"] = len(d.events)
             s._sigwinch_handler(28, None)  # the real handler: marks _resized and wakes the resize pipe
             return real_wait(0) if fds else [s._resize_pipe_rd.fileno()]
         if queue:
             queue.pop(0)
         state["expired"] = True
+        state["quiet"] = True
         return real_wait(0) if fds else []
 
     def codes():
@@ -495,13 +612,24 @@ def deliver_get_input(env: Env, mode, data: bytes, cuts=(), fires=(), real=False
                     entry_marks(d, prev, ent, "get_input")
                 if queue[0][0] == "chunk" and entries.get(queue[0][2]):
                     # type-ahead the application read itself, handed to parse_input synchronously
-                    _k, c, start = queue.pop(0)
+                    _k, c, start, _tg = queue.pop(0)
                     state["delivered"] += len(c)
                     keys, raw = s.parse_input(None, None, CONTAINERS[entries[start]]([*s._partial_codes, *c]))
                     prev = (entries[start], bool(s._partial_codes))
                 else:
+                    nmarks = len(d.marks)
                     keys, raw = s.get_input(raw_keys=True)
                     prev = (None, bool(s._partial_codes))
+                    if s._partial_codes and not state["expired"]:
+                        # nothing will flush these: the next call first blocks for max_wait (None = for ever), not complete_wait
+                        throttled = any(m.startswith("throttle_wait:") for m in d.marks[nmarks:])
+                        d.problems.append(
+                            (
+                                "get_input|returns-with-bytes-pending|" + ("after-resize-throttle" if throttled else "plain"),
+                                f"get_input returned {keys} with pending={list(s._partial_codes)}",
+                            )
+                        )
+                        break
                 d.calls += 1
                 d.events.extend(keys)
                 d.raw.extend(raw)
@@ -529,9 +657,9 @@ def deliver_get_input(env: Env, mode, data: bytes, cuts=(), fires=(), real=False
         s.__dict__.pop("_wait_for_input_ready", None)
         s.__dict__.pop("_get_input_codes", None)
     d.resize_events = sum(1 for e in d.events if e == "window resize")
+    if d.error is None and not d.problems and state["last_resize_at"] is not None and "window resize" not in d.events[state["last_resize_at"] :]:
+        d.problems.append(("get_input|resize-wakeup-not-reported", f"{len(resizes)} SIGWINCH delivered, no 'window resize' event after the last one: {d.events}"))
     d.events = [e for e in d.events if e != "window resize"]
-    if d.error is None and not d.problems and resizes and not d.resize_events:
-        d.problems.append(("get_input|resize-wakeup-not-reported", f"{len(resizes)} SIGWINCH delivered, no 'window resize' event"))
     if d.problems or d.error:
         rig.dirty = True
         if real or fds:  # drain the pipe
@@ -660,7 +788,9 @@ class Judge:
         # ---- (c) fragmentation on the event-loop path
         if path == "loop":
             if cuts or entries:
-                f = deliver(env, mode, data, cuts, fires, entries)
+                rehooks = {r for r in case.get("rehooks", ()) if r in cuts} or None
+                via = case.get("rehook_via", "direct")
+                f = deliver(env, mode, data, cuts, fires, entries, rehooks=rehooks, via=via)
                 for mk in f.marks:
                     self.cnt(mk)
                 self.cnt("deliveries")
@@ -672,7 +802,9 @@ class Judge:
                 if f.error is not None:
                     return [(self.err_sig(f, mode), f"{list(data)} in {mode} mode cut at {cuts} timer fired at {fires} entries {entries}: {f.error[3]}")]
                 for tail, msg in f.problems:
-                    out.append((f"C05|parse_input|{tail}|fragmented", msg + f" cuts={cuts} fires={fires}"))
+                    out.append((f"C05|parse_input|{tail}|fragmented", msg + f" cuts={cuts} fires={fires} rehook-after={sorted(rehooks or ())} via={via}"))
+                if "stopped-early" in f.marks:
+                    return out
                 if fires:
                     expected = []
                     for seg in split_at(data, sorted(set(fires) & set(cuts))):
@@ -692,19 +824,22 @@ class Judge:
                     out.append(
                         (
                             f"C05|frag|{kind}|{how}|cut-in:{cut_class(toks, spans, cuts, data)}",
-                            f"{mode} {list(data)} cuts={cuts} fires={fires} entries={entries}: got {f.events} expected {expected} (first difference at event {i})",
+                            f"{mode} {list(data)} cuts={cuts} fires={fires} entries={entries} rehook-after={sorted(rehooks or ())}: got {f.events} expected {expected} (first difference at event {i})",
                         )
                     )
                 else:
                     self.cnt("oracle_c_fire_equal" if fires else "oracle_c_nofire_equal")
+                    if "rehook:with-bytes-pending" in f.marks:
+                        self.cnt("oracle_c_equal_across_rehook_with_bytes_pending")
             return out
         # ---- (e) blocking path
         real = path == "realfd"
         fds = path == "get_input_fds"
-        resizes = [] if real else [r for r in case.get("resizes", ()) if r == 0 or r in cuts]
+        resizes = [] if real else sorted(r for r in case.get("resizes", ()) if r == 0 or r in cuts or r == len(data))
+        joint = [p for p in case.get("joint", ()) if p in resizes]
         if entries and not real:
             fires = []  # a mid-stream expiry cannot be placed deterministically next to a synchronous parse_input call
-        g = deliver_get_input(env, mode, data, () if real else cuts, () if real else fires, real=real, resizes=resizes, fds=fds, entries=None if real else entries)
+        g = deliver_get_input(env, mode, data, () if real else cuts, () if real else fires, real=real, resizes=resizes, fds=fds, entries=None if real else entries, joint=joint)
         for mk in g.marks:
             self.cnt(mk)
         self.cnt("oracle_e_realfd_cases" if real else ("oracle_e_get_input_fds_cases" if fds else "oracle_e_get_input_cases"))
@@ -721,12 +856,12 @@ class Judge:
             # was a pending sequence decoded early because of a resize wake-up?
             plain = None
             if resizes:
-                plain = deliver_get_input(env, mode, data, cuts, fires, resizes=(), fds=fds)
+                plain = deliver_get_input(env, mode, data, cuts, fires, resizes=(), fds=fds, entries=entries)
             if plain is not None and plain.error is None and not plain.problems and plain.events == ref.events:
-                sig = "C05|get_input|resize-wakeup-changes-decoding|" + ("pending-decoded-before-timeout" if g.resize_while_pending else "nothing-pending")
+                sig = "C05|get_input|resize-wakeup-changes-decoding|" + ("pending-decoded-before-timeout" if g.resize_while_pending else "keys-lost-or-changed-with-nothing-pending")
             else:
                 sig = f"C05|get_input|events-differ-from-event-loop-path|{'realfd' if real else ('fds' if fds else 'virtual')}"
-            out.append((sig, f"{mode} {list(data)} cuts={cuts} fires={fires} SIGWINCH-after={resizes} entries={entries}: get_input (minus 'window resize') {g.events} vs parse_input {ref.events}"))
+            out.append((sig, f"{mode} {list(data)} cuts={cuts} fires={fires} SIGWINCH-at={resizes} together-with-chunk-at={joint} entries={entries}: get_input (minus 'window resize') {g.events} vs parse_input {ref.events}"))
         else:
             self.cnt("oracle_e_equal")
             if g.resize_while_pending:
@@ -770,11 +905,24 @@ def _norm_case(case, env):
     fires = sorted({f for f in case.get("fires", ()) if f in cuts})
     out = {"path": case.get("path", "loop"), "mode": case["mode"], "descs": case["descs"], "cuts": cuts, "fires": fires}
     if case.get("resizes"):
-        out["resizes"] = sorted({r for r in case["resizes"] if r == 0 or r in cuts})
+        out["resizes"] = sorted(r for r in case["resizes"] if r == 0 or r in cuts or r == len(data))
+        if case.get("joint"):
+            out["joint"] = sorted({p for p in case["joint"] if p in out["resizes"]})
+    if case.get("rehooks"):
+        rh = sorted({r for r in case["rehooks"] if r in cuts})
+        if rh:
+            out["rehooks"] = rh
+            out["rehook_via"] = case.get("rehook_via", "direct")
     if case.get("entries"):
         ent = {int(p): t for p, t in case["entries"] if int(p) == 0 or int(p) in cuts}
         if ent:
             out["entries"] = [[p, t] for p, t in sorted(ent.items())]
+    return out
+
+
+def _shifted(case, shift):
+    out = {k: [shift(c) for c in case.get(k, ())] for k in ("cuts", "fires", "resizes", "joint", "rehooks")}
+    out["entries"] = [[shift(p_), t_] for p_, t_ in case.get("entries", ())]
     return out
 
 
@@ -794,10 +942,11 @@ def shrink(env: Env, case, sig, budget=150):
     while changed and budget > 0:
         changed = False
         # fewer cuts / fires
-        for key in ("entries", "resizes", "fires", "cuts"):
+        for key in ("rehooks", "joint", "entries", "resizes", "fires", "cuts"):
             for x in list(case.get(key, ())):
-                c2 = dict(case, **{key: [y for y in case[key] if y != x]})
-                c2 = _norm_case(c2, env)
+                rest = list(case[key])
+                rest.remove(x)  # one occurrence (resizes is a multiset)
+                c2 = _norm_case(dict(case, **{key: rest}), env)
                 if budget > 0 and still(c2):
                     case, changed = c2, True
         # fewer tokens (cut positions are shifted by the removed length)
@@ -806,7 +955,7 @@ def shrink(env: Env, case, sig, budget=150):
             data, toks, _e, spans = env.model.stream(case["descs"], case["mode"])
             a, b = spans[i]
             shift = lambda c: c if c <= a else (a if c < b else c - (b - a))  # noqa: E731
-            c2 = dict(case, descs=case["descs"][:i] + case["descs"][i + 1 :], cuts=[shift(c) for c in case["cuts"]], fires=[shift(c) for c in case["fires"]], resizes=[shift(c) for c in case.get("resizes", ())], entries=[[shift(p_), t_] for p_, t_ in case.get("entries", ())])
+            c2 = dict(case, descs=case["descs"][:i] + case["descs"][i + 1 :], **_shifted(case, shift))
             c2 = _norm_case(c2, env)
             if c2["descs"] and still(c2):
                 case, changed = c2, True
@@ -826,7 +975,7 @@ def shrink(env: Env, case, sig, budget=150):
                 shift = lambda c: c if c <= pos else c - 1  # noqa: E731
                 nd = list(case["descs"])
                 nd[ti] = ["raw", bs[:k] + bs[k + 1 :]]
-                c2 = _norm_case(dict(case, descs=nd, cuts=[shift(c) for c in case["cuts"]], fires=[shift(c) for c in case["fires"]], resizes=[shift(c) for c in case.get("resizes", ())], entries=[[shift(p_), t_] for p_, t_ in case.get("entries", ())]), env)
+                c2 = _norm_case(dict(case, descs=nd, **_shifted(case, shift)), env)
                 if still(c2):
                     case, changed = c2, True
                 else:
@@ -842,6 +991,7 @@ def repro_code(env, case):
         f"urwid.set_encoding({M.MODE_ENCODING[case['mode']]!r}); s=urwid.display.raw.Screen(input=object(),output=io.StringIO()); "
         f"chunks={[list(c) for c in chunks]!r}; fire_after_cut={case['fires']!r}  # feed each chunk via s._get_input_codes + "
         f"s.parse_input(loop, cb, s.get_available_raw_input()), call the alarm callback where fired and at the end"
+        + (f"; screen started and hooked with hook_event_loop(loop, cb), chunks read by the watch callback, unhook_event_loop+hook_event_loop ({case.get('rehook_via')}) right after cut {case['rehooks']}" if case.get("rehooks") else "")
         + (f"; chunks starting at these offsets are handed directly as parse_input(loop, cb, <type>([*s._partial_codes, *chunk])): {case['entries']}" if case.get("entries") else "")
         + ("; path=" + case["path"] + (f"; SIGWINCH (real _sigwinch_handler) right after cut {case['resizes']}, before the next chunk" if case.get("resizes") else "") if case["path"] != "loop" else "")
     )
@@ -1083,12 +1233,12 @@ class Runner:
                 case_out = _norm_case(case, self.env)
             ctx.violation(sig, msg + "\nrepro: " + repro_code(self.env, case_out), case_out)
 
-    def one(self, mode, descs, cuts=(), fires=(), path="loop", resizes=(), entries=()):
+    def one(self, mode, descs, cuts=(), fires=(), path="loop", **extra):
+        """extra: resizes, joint, entries, rehooks, rehook_via"""
         case = {"path": path, "mode": mode, "descs": descs, "cuts": list(cuts), "fires": list(fires)}
-        if resizes:
-            case["resizes"] = list(resizes)
-        if entries:
-            case["entries"] = [list(e) for e in entries]
+        for k_, v_ in extra.items():
+            if v_:
+                case[k_] = [list(e) if isinstance(e, (list, tuple)) else e for e in v_] if not isinstance(v_, str) else v_
         found = self.judge.judge(case)
         if found:
             self.report(case, found)
@@ -1137,14 +1287,27 @@ class Runner:
                 ctx.count("schedules_mixed_entry")
                 if not self.one(mode, descs, cuts, fires, entries=entries):
                     break
+        if n > 1 and sched != "none":
+            # the owner re-hooks the screen (INPUT_DESCRIPTORS_CHANGED) between two reads
+            cuts, fires = next(schedules_random(rng, n, 1))
+            rehooks = [c for c in cuts if rng.random() < 0.6]
+            via = "signal" if k % 2 else "direct"
+            ctx.case((mode, hx, cuts, fires, rehooks, via))
+            self.one(mode, descs, cuts, fires, rehooks=rehooks, rehook_via=via)
         if k % 5 == 0:
             cuts, fires = next(schedules_random(rng, n, 1)) if n > 1 else ([], [])
             # SIGWINCH wake-ups are schedule events too: after some cuts the resize pipe becomes ready before the remainder
             resizes = [c for c in cuts if rng.random() < 0.5] + ([0] if rng.random() < 0.1 else [])
+            joint = []
+            if k % 15 == 0:
+                # drag-resizing: two resize-only results in a row start the throttle, then keys and further resizes
+                # arrive inside its waits (separately or during the same wait)
+                resizes = sorted([0, 0, *resizes, *[c for c in cuts if rng.random() < 0.3], *([n] if rng.random() < 0.3 else [])])
+                joint = [c for c in set(resizes) if c < n and rng.random() < 0.5]
             gpath = "get_input" if (k // 5) % 2 else "get_input_fds"
             entries = [[p, rng.choice(types)] for p in [0, *cuts] if rng.random() < 0.4] if k % 10 == 0 else []
-            ctx.case((mode, hx, cuts, fires, resizes, gpath, entries))
-            self.one(mode, descs, cuts, fires, path=gpath, resizes=resizes, entries=entries)
+            ctx.case((mode, hx, cuts, fires, resizes, joint, gpath, entries))
+            self.one(mode, descs, cuts, fires, path=gpath, resizes=resizes, joint=joint, entries=entries)
         if k % 23 == 0 and n <= 2048:
             ctx.case((mode, hx, "realfd"))
             self.one(mode, descs, path="realfd")
@@ -1183,6 +1346,24 @@ def enumerations(ctx, R: Runner):
             for c in sorted({1, n // 2 or 1, n - 1}):
                 ctx.case(("utf8", seq, c, "gi-resize"))
                 R.one("utf8", [["seq", seq]], [c], [], path="get_input_fds" if c % 2 else "get_input", resizes=[c])
+            # re-hook between the two halves of the sequence (event-loop path, really hooked POSIX screen)
+            for via in ("direct", "signal"):
+                ctx.case(("utf8", seq, c, via, "rehook"))
+                R.one("utf8", [["byte", 120], ["seq", seq], ["byte", 121]], [c + 1], [], rehooks=[c + 1], rehook_via=via)
+            # resize throttle: two resize-only reads, then a key in the first throttle wait and more input together
+            # with / followed by another SIGWINCH in the second
+            tdesc = [["byte", 97], ["seq", seq], ["byte", 98]]
+            for ti, (tcuts, tres, tjoint) in enumerate(
+                [
+                    ([1], [0, 0, 1], [1]),  # key in round 1, more input + SIGWINCH right behind it
+                    ([1], [0, 0, 0], [0]),  # round 1: key and SIGWINCH during the same wait
+                    ([1], [0, 0, 0, 0], [0]),  # round 1: SIGWINCH only, round 2: key + SIGWINCH
+                    ([1, c + 1], [0, 0, 1, c + 1], []),  # a read inside the throttle ends inside the sequence
+                    ([1, n], [0, 0, n], [n]),
+                ]
+            ):
+                ctx.case(("utf8", seq, ti, "throttle"))
+                R.one("utf8", tdesc, tcuts, [], path="get_input_fds" if ti % 2 else "get_input", resizes=tres, joint=tjoint)
             # container type x entry-point transition, cut inside the sequence: typed chunk then the read path / get_input,
             # and the read path then a typed chunk
             c = n // 2 or 1
@@ -1422,7 +1603,7 @@ def replay(ctx, wit):
     env = Env()
     try:
         R = Runner(ctx, env)
-        R.one(wit["mode"], wit["descs"], wit.get("cuts", ()), wit.get("fires", ()), wit.get("path", "loop"), wit.get("resizes", ()), wit.get("entries", ()))
+        R.one(wit["mode"], wit["descs"], wit.get("cuts", ()), wit.get("fires", ()), wit.get("path", "loop"), **{k_: wit[k_] for k_ in ("resizes", "joint", "entries", "rehooks", "rehook_via") if k_ in wit})
         ctx.case((wit["mode"], wit["descs"], wit.get("cuts"), wit.get("fires")))
     finally:
         env.close()
